@@ -672,6 +672,13 @@ func (r *StoreRun) RenderEvent(ev StoreEvent) string {
 	}
 	cls, jof := storeRelClass(ev.Path)
 	val := "-"
+	if ev.Op == "get" && ev.Res == "ok" && len(ev.Data) == 0 {
+		// a file that has been created / truncated and not yet filled
+		return fmt.Sprintf("e %d get %s ok empty", ev.Client, cls)
+	}
+	if ev.Op == "create" || ev.Op == "createx" {
+		return fmt.Sprintf("e %d %s %s %s -", ev.Client, ev.Op, cls, ev.Res)
+	}
 	if ev.Data != nil || ev.Res == "ok" {
 		switch {
 		case strings.HasSuffix(cls, "/HEAD"):
@@ -691,7 +698,7 @@ func (r *StoreRun) RenderEvent(ev StoreEvent) string {
 				val = DecodeJournalEntry(ev.Data, jof == "pools")
 			}
 		case strings.Contains(cls, "/c#"):
-			if ev.Op == "put" {
+			if ev.Op == "put" || ev.Op == "write" {
 				par, adds, dels, err := DecodeCommitObject(ev.Data)
 				if err != nil {
 					val = "undecodable-commit"
@@ -1027,8 +1034,13 @@ func DiffStoreSections(names []string, real, model [][]string) string {
 // CompareWithModel feeds the scenario with the schedule actually performed to the model and
 // diffs trace, results and final visible state.
 func (r *StoreRun) CompareWithModel(m *Model, prop string) (diff string, req string) {
+	return r.CompareWithModelMode(m, prop, "run")
+}
+
+// CompareWithModelMode: mode "run" = atomic puts, "runfill" = create-then-fill puts.
+func (r *StoreRun) CompareWithModelMode(m *Model, prop, mode string) (diff string, req string) {
 	sc := &StoreScenario{Clients: r.Ops, Sched: r.SchedFromTrace()}
-	req = sc.ModelRequest(prop)
+	req = strings.Replace(sc.ModelRequest(prop), "("+prop+" run ", "("+prop+" "+mode+" ", 1)
 	ans := m.Call(req)
 	mo, err := ParseStoreModelOut(ans)
 	if err != nil {
